@@ -50,7 +50,7 @@ def case_strategy(draw, tier):
             "controller": draw(st.booleans()), "with_results": draw(st.booleans()), "mass_storage_default": draw(st.integers(0, 5)) == 0,
             "geodata": draw(st.booleans())}
     return {"recipe": rec, "options": opts, "deco": deco, "path": draw(st.sampled_from(PATHS if not multinet else PATHS[:3])),
-            "multinet": multinet}
+            "multinet": multinet, "twice": draw(st.integers(0, 2)) == 0}
 
 
 def decorate(net, rec, deco):
@@ -99,22 +99,60 @@ def decorate(net, rec, deco):
         ConstControl(net, "sink", "mdot_kg_per_s", element_index=[int(net.sink.index[0])], data_source=DFData(prof), profile_name=["a"])
 
 
-def round_trip(obj, path):
+def scribble(loaded):
+    """What a user may do with a loaded net: change it in place (fluid properties, pump curves, standard types, tables).
+    A later load of the same stored text must not see any of it."""
+    import pandapipes as pp
+    nets = [loaded.nets[k] for k in loaded.nets if type(loaded.nets[k]).__name__ == "pandapipesNet"] if hasattr(loaded, "nets") \
+        and "nets" in loaded else [loaded]
+    for n in nets:
+        try:
+            if n.fluid is not None:
+                pp.create_constant_property(n, "density", 1234.5, overwrite=True)
+                for pr in list(n.fluid.all_properties.values()):
+                    for attr in ("value", "offset", "slope"):
+                        if hasattr(pr, attr) and isinstance(getattr(pr, attr), (int, float)):
+                            setattr(pr, attr, getattr(pr, attr) * 3.0 + 1.0)
+            for name, t in n.std_types.get("pump", {}).items():
+                if hasattr(t, "reg_par") and isinstance(t.reg_par, np.ndarray):
+                    t.reg_par *= 0.5
+            for name, t in n.std_types.get("pipe", {}).items():
+                if isinstance(t, dict) and "inner_diameter_mm" in t:
+                    t["inner_diameter_mm"] = 1.0
+            if len(n.junction):
+                n.junction["pn_bar"] = n.junction["pn_bar"] * 2.0
+        except Exception:
+            pass
+
+
+def round_trip(obj, path, twice=False):
+    """save, load; with `twice`: the first loaded copy is changed in place, then the same stored text / file is loaded again"""
     import pandapipes as pp
     if path == "json_string":
-        return pp.from_json_string(pp.to_json(obj))
+        txt = pp.to_json(obj)
+        first = pp.from_json_string(txt)
+        if not twice:
+            return first
+        scribble(first)
+        return pp.from_json_string(txt)
     with tempfile.TemporaryDirectory(prefix="vp_c15_") as d:
         if path == "json_file":
             fn = os.path.join(d, "net.json")
             pp.to_json(obj, fn)
-            return pp.from_json(fn)
-        if path == "json_encrypted":
+            load = lambda: pp.from_json(fn)
+        elif path == "json_encrypted":
             fn = os.path.join(d, "net_enc.json")
             pp.to_json(obj, fn, encryption_key="s3cret")
-            return pp.from_json(fn, encryption_key="s3cret")
-        fn = os.path.join(d, "net.p")
-        pp.to_pickle(obj, fn)
-        return pp.from_pickle(fn)
+            load = lambda: pp.from_json(fn, encryption_key="s3cret")
+        else:
+            fn = os.path.join(d, "net.p")
+            pp.to_pickle(obj, fn)
+            load = lambda: pp.from_pickle(fn)
+        first = load()
+        if not twice:
+            return first
+        scribble(first)
+        return load()
 
 
 def null(v):
@@ -208,7 +246,7 @@ def evaluate(case):
             e.setdefault("max_m_stored_kg", 1.0e6)      # the default (inf) is the subject of a known finding; see deco
     net = build(rec)
     decorate(net, rec, deco)
-    labels = {"path:" + case["path"], "multinet" if case["multinet"] else "single"}
+    labels = {"path:" + case["path"], "multinet" if case["multinet"] else "single"} | ({"loaded_twice"} if case.get("twice") else set())
     f = []
     if deco["with_results"]:
         r = solve(net, **opts)
@@ -227,7 +265,7 @@ def evaluate(case):
         P2GControlMultiEnergy(mn, ld, so, 0.7)
         obj = mn
     try:
-        loaded = round_trip(obj, case["path"])
+        loaded = round_trip(obj, case["path"], twice=bool(case.get("twice")))
     except Exception as e:
         from ..recipe import exc_sig
         f.append(Finding("round_trip", "C15.round_trip.raises.%s.%s" % (case["path"], exc_sig(e)), {"exc": repr(e)[:300]}))
@@ -259,7 +297,18 @@ def evaluate(case):
     if not f:
         a2, b2 = copy.deepcopy(a), b
         ra, rb = solve(a2, **opts), solve(b2, **opts)
-        if ra.status != rb.status:
+        if ra.status != rb.status and case["path"] != "pickle" and {ra.status, rb.status} == {"ok", "not_converged"}:
+            # inputs that differ by the JSON precision can put a run just on the other side of the iteration limit: the
+            # verdict only counts if it persists with a generous limit (same policy as C07)
+            a2, b2 = copy.deepcopy(a), copy.deepcopy(b)
+            big = dict({k_: v_ for k_, v_ in opts.items() if not k_.startswith("max_iter")}, iter=400)
+            ra, rb = solve(a2, **big), solve(b2, **big)
+            labels.add("verdict_rechecked_with_iter_400")
+        from ..compare import stagnant_lift
+        if case["path"] != "pickle" and (stagnant_lift(a2, b2) or (ra.status != rb.status and any(
+                t_ in a2 and len(a2[t_]) for t_ in ("pump", "compressor")))):
+            labels.add("pipeflow_not_compared:stagnant_pump_or_compressor")
+        elif ra.status != rb.status:
             f.append(Finding("pipeflow", "C15.pipeflow.status", {"original": ra.status, "loaded": rb.status, "exc": repr(rb.exc)[:200]}))
         elif ra.ok and case["path"] != "pickle":
             # inputs differ by the JSON precision (1e-15 absolute): cross-run tolerance policy
@@ -287,7 +336,8 @@ def evaluate(case):
 
 
 def _sample(case):
-    return {"recipe": abbreviate(case["recipe"]), "deco": case["deco"], "path": case["path"], "multinet": case["multinet"]}
+    return {"recipe": abbreviate(case["recipe"]), "deco": case["deco"], "path": case["path"], "multinet": case["multinet"],
+            "loaded_twice": bool(case.get("twice"))}
 
 
 def run_shard(coll, tier, seed, shard, nshards, known):
